@@ -1057,6 +1057,23 @@ def midflight_reload_scenario(rng, name, with_stray=True):
     answers; afterwards a service that was never asked about a client answers with that client's
     tag (stray), and the removed service answers late (legitimate: it still owes the answer)"""
     mods = rng.choice(["xquery", "class"])
+    if rng.random() < 0.2:
+        # a service that was never asked about the waiting client (a drone check before nick and user
+        # name are known) is dropped from in front of the one the client waits for (seeded change
+        # C03-8x13 kept the table dense by moving the last entry into the freed slot)
+        rules = [("a", [("class", "cls-a")])] if mods == "class" else []
+        cfg = Cfg(timeout=rng.choice([0, 0, 30]), services=[("a.srv", "dronecheck"), ("keep.srv", "login")], rules=rules)
+        new = Cfg(timeout=cfg.timeout, services=[("keep.srv", "login")] + ([("z.srv", "dronecheck")] if rng.random() < 0.5 else []), rules=rules)
+        cid = rng.choice([1, 5, 7, 300])
+        tag = sym_tag(cid, 1, "%x_1" % (cid & 0xffffffff))
+        first = [("C", rng.choice(["10.0.0.1", "2001:db8::1"]), "4000"), ("line", "N host.example"), ("line", "P :+x alice pw")]
+        rest = [("line", "u ident"), ("line", "n nick"), ("line", "U user :real name")]
+        ops = header(mods, cfg) + render_schedule(rng, {cid: first}) + [new.op("reload")] + render_schedule(rng, {cid: rest})
+        ops.append(inl("-1 X keep.srv %s :%s" % (tag, rng.choice(["OK alice", "OK alice:7", "NO bad password"]))))
+        if any(n == "z.srv" for n, _ in new.services):
+            ops.append(inl("-1 X z.srv %s :OK" % tag))
+        ops += [inl("%d H" % cid), inl("-1 ? :config"), inl("-1 ? :stats"), "eof"]
+        return Case(name, ops, tags={"mods": mods})
     a_type = rng.choice(["login", "login-ipr", "combined", "dronecheck"])
     old = [("a.srv", a_type)]
     if rng.random() < 0.4:
@@ -1160,9 +1177,16 @@ def challenge_scenario(rng, name):
         ev = [("C", rng.choice(["1.2.3.4", "0::1"]), "1234")] + data[:k] + [pw]
         rest = data[k:]
         flow = []
-        for _ in range(rng.choice([1, 1, 2])):
-            flow.append(("reply", "X", "login.srv", rng.choice(["MORE challenge", "MORE c2", "AGAIN retry", "MORE 50%d off %u", "AGAIN 100%% sure",
-                                                                "MORE %s%s%n", "AGAIN " + "q" * rng.choice([900, 1000, 1100])]), "cur"))
+        prev_text = None
+        for _ in range(rng.choice([1, 1, 2, 2])):
+            text = rng.choice(["MORE challenge", "MORE c2", "AGAIN retry", "MORE 50%d off %u", "AGAIN 100%% sure",
+                               "MORE %s%s%n", "AGAIN " + "q" * rng.choice([900, 1000, 1100])])
+            if prev_text is not None and rng.random() < 0.5:
+                # the same prompt a second time is a second prompt (seeded change C05-5 dropped a
+                # notice identical to the one before it)
+                text = prev_text
+            prev_text = text
+            flow.append(("reply", "X", "login.srv", text, "cur"))
             flow.append(("line", "P :" + rng.choice(["response", "+x acct pass2", "-! acct pass"])))
         flow.append(("reply", "X", "login.srv", rng.choice(["OK acct", "OK", "NO bad", "OK acct:1"]), "cur"))
         if rng.random() < 0.4:
